@@ -28,10 +28,11 @@
                                              the evaluation on t' returns;  _mono_: information order;
      C06_eval_mono_generic + C06_atom3_mono  abstract atoms / the atom premise proved for atom3.
    (`_partial` in the names: the statement over ALL formulas is refuted above.)
-   SECOND PROOF EXTENSION (Logic/Eval3Preds.v, Eval3Stable2.v; end of this file) — the tree-READING
-   predicates.  Fragment qfragP = qfrag + consecutive + nth + count(<variable>, <nonterminal>, <literal>):
+   SECOND PROOF EXTENSION (Logic/Eval3Preds.v, Eval3Mexpr.v, Eval3Stable2.v; end of this file) — the
+   tree-READING predicates and match expressions.  Fragment qfragP = qfrag + consecutive + nth +
+   count(<variable>, <nonterminal>, <literal>) + tree quantifiers WITH match expressions:
      C06_verdict_stable_preds_partial   any formula of qfragP outside K_selfrec_open, K_cons_rel_open,
-                                        K_nth_before (returns-premise on t' as in _quant_partial);
+                                        K_nth_before, K_mexpr_open (returns-premise on t' as in _quant_partial);
                                         _mono_: information order.  FULL for count: whenever the model's
                                         count returns on t (i.e. outside the insertion regime
                                         K_count_insert, where the model raises NotImpl) its verdict is
@@ -53,11 +54,22 @@
                                         label; static class K_nth_before (an open leaf precedes a node
                                         whose label it can still produce) refines K_nth_open
                                         (C06_K_nth_before_refines); the recorded witness is in it.
-   STILL MISSING (correspondence + search only): match expressions (completeness of can_extend),
-   numeric quantifiers, count with a variable/tree as number argument; the well-scoped form (no
-   returns-premise) is proved for qfrag only - for qfragP and for formulas that are not well-scoped
-   the returns-premise stays (UNKNOWN on t short-cuts bodies that raise on t'). *)
-From ISLA Require Import Eval3 EvalFacts GrammarFacts FuzzFacts Eval3Facts Eval3Compl Eval3Stable Eval3Total Eval3Preds Eval3Stable2.
+     match expressions:                 K_mexpr_open = a node of t carrying the type of a quantifier with
+                                        match expression is not a closed subtree.  Outside it
+                                        (C06_quant_mexpr_mono): matches found on t are computed on closed
+                                        subtrees and stay, a new match needs a new node of the type, and the
+                                        open leaf above it is a potential match by the same-type /
+                                        reachability branches of quantified_formula_might_match.
+   STILL MISSING (correspondence + search only): match expressions INSIDE K_mexpr_open (a partially
+   expanded node of the quantified type: needs completeness of can_extend_leaf_to_make_quantifier_match_parent),
+   numeric quantifiers, count with a variable/tree as number argument.  The well-scoped form (no
+   returns-premise, conclusion m3_evaluate g t' cst f = Ok v) is proved for qfrag
+   (C06_verdict_stable_wellscoped_partial) and, NEW (Logic/Eval3Total2.v), for the extended fragment
+   without match expressions (C06_verdict_stable_preds_wellscoped_partial: wsbx = wsb + consecutive +
+   nth with a first node argument of nonterminal type + count(<variable>, <nonterminal>, <integer literal>));
+   for quantifiers with match expressions and for formulas that are not well-scoped the
+   returns-premise stays (UNKNOWN on t short-cuts bodies that raise on t'). *)
+From ISLA Require Import Eval3 EvalFacts GrammarFacts FuzzFacts Eval3Facts Eval3Compl Eval3Stable Eval3Total Eval3Preds Eval3Mexpr Eval3Stable2 Eval3Total2.
 From Coq Require Import ZArith.
 
 (* ---- refutations of the full statement ---- *)
@@ -476,18 +488,20 @@ Theorem C06_verdict_mono_preds_partial : forall g t t' cst f v v',
   compl g t t' -> is_openT t' = false -> uniq_ids t' -> reach_closedb g = true ->
   qfragP f = true -> forallb is_nt (qtypes atom3 f) = true ->
   K_selfrec_open atom3 g t f = false -> K_cons_rel_open atom3 t f = false -> K_nth_before atom3 g t f = false ->
+  K_mexpr_open atom3 t f = false ->
   m3_evaluate g t cst f = Ok v -> m3_evaluate g t' cst f = Ok v' -> tv_le v v'.
 Proof. exact verdict_mono_preds. Qed.
 Print Assumptions C06_verdict_mono_preds_partial.
 
 (* `_partial`: the statement over all formulas is refuted; here: formulas of qfragP (tree quantifiers
-   without match expression; before/after/inside/same_position/different_position/direct_child/level/
-   consecutive/nth; count(<variable>, <nonterminal>, <literal>); SMT atoms atom3) outside the three
+   with or without match expression; before/after/inside/same_position/different_position/direct_child/level/
+   consecutive/nth; count(<variable>, <nonterminal>, <literal>); SMT atoms atom3) outside the four
    classes; premise that the evaluation on t' returns. *)
 Theorem C06_verdict_stable_preds_partial : forall g t t' cst f v v',
   compl g t t' -> is_openT t' = false -> uniq_ids t' -> reach_closedb g = true ->
   qfragP f = true -> forallb is_nt (qtypes atom3 f) = true ->
   K_selfrec_open atom3 g t f = false -> K_cons_rel_open atom3 t f = false -> K_nth_before atom3 g t f = false ->
+  K_mexpr_open atom3 t f = false ->
   m3_evaluate g t cst f = Ok v -> v <> UU -> m3_evaluate g t' cst f = Ok v' -> v' = v.
 Proof. exact verdict_stable_preds. Qed.
 Print Assumptions C06_verdict_stable_preds_partial.
@@ -503,11 +517,44 @@ Theorem C06_eval_mono_preds_generic :
        eval_legacy A afree aopen aeval (m3_qmm g t) (reachb g) count_open3 t (FSmt x) a = Ok r ->
        eval_legacy A afree aopen aeval qmm' (reachb g) count_open3 t' (FSmt x') a' = Ok r' -> tv_le r r') ->
     forall f f', frel2 A okc okn g arel f f' -> forall a a' r r',
-      asg_rel t t' a a' -> Forall (qt_ok g t) (qtypes A f) ->
+      asg_rel t t' a a' -> Forall (qt_ok g t) (qtypes A f) -> Forall (mx_ok t) (mtypes A f) ->
       eval_legacy A afree aopen aeval (m3_qmm g t) (reachb g) count_open3 t f a = Ok r ->
       eval_legacy A afree aopen aeval qmm' (reachb g) count_open3 t' f' a' = Ok r' -> tv_le r r'.
 Proof. exact eval_mono2. Qed.
 Print Assumptions C06_eval_mono_preds_generic.
+
+(* the quantifier lemma for match expressions (class guard mx_ok = not K_mexpr_open for the type) *)
+Theorem C06_quant_mexpr_mono :
+  forall (qmm' : var -> path -> option mexpr -> asg -> path -> bool) (g : grammar) (t t' : tree),
+    compl g t t' -> is_openT t' = false -> uniq_ids t' -> reach_closedb g = true ->
+    forall is_forall v i i' me (body body' : asg -> res TV) a a' r r',
+      irel i i' -> asg_rel t t' a a' ->
+      (is_nt (vtype v) = true /\ forall p n, subtree t p = Some n -> lbl n = vtype v -> is_openT n = false) ->
+      (forall na na' x x', asg_rel t t' na na' -> body na = Ok x -> body' na' = Ok x' -> tv_le x x') ->
+      eval_quant (m3_qmm g t) t is_forall v i (Some me) body a = Ok r ->
+      eval_quant qmm' t' is_forall v i' (Some me) body' a' = Ok r' -> tv_le r r'.
+Proof. exact quant_mono_mx. Qed.
+Print Assumptions C06_quant_mexpr_mono.
+
+Theorem C06_no_mexpr_not_K : forall A t f, has_mexpr A f = false -> K_mexpr_open A t f = false.
+Proof. exact no_mexpr_not_K. Qed.
+Print Assumptions C06_no_mexpr_not_K.
+
+Example C06_verdict_stable_mexpr_nonvacuous :
+  (compl MX_g MX_t MX_t' /\ is_openT MX_t' = false /\ uniq_ids MX_t' /\ reach_closedb MX_g = true /\ is_openT MX_t = true /\
+   qfragP MX_f1 = true /\ has_mexpr atom3 MX_f1 = true /\ forallb is_nt (qtypes atom3 MX_f1) = true /\
+   K_selfrec_open atom3 MX_g MX_t MX_f1 = false /\ K_cons_rel_open atom3 MX_t MX_f1 = false /\
+   K_nth_before atom3 MX_g MX_t MX_f1 = false /\ K_mexpr_open atom3 MX_t MX_f1 = false /\
+   m3_evaluate MX_g MX_t W_cst3 MX_f1 = Ok TT /\ m3_evaluate MX_g MX_t' W_cst3 MX_f1 = Ok TT /\
+   qfragP MX_f2 = true /\ K_mexpr_open atom3 MX_t MX_f2 = false /\
+   m3_evaluate MX_g MX_t W_cst3 MX_f2 = Ok FF /\ m3_evaluate MX_g MX_t' W_cst3 MX_f2 = Ok FF) /\
+  (compl MY_g MY_t MY_t' /\ is_openT MY_t' = false /\ uniq_ids MY_t' /\ reach_closedb MY_g = true /\ is_openT MY_t = true /\
+   qfragP MY_f1 = true /\ has_mexpr atom3 MY_f1 = true /\ forallb is_nt (qtypes atom3 MY_f1) = true /\
+   K_selfrec_open atom3 MY_g MY_t MY_f1 = false /\ K_cons_rel_open atom3 MY_t MY_f1 = false /\
+   K_nth_before atom3 MY_g MY_t MY_f1 = false /\ K_mexpr_open atom3 MY_t MY_f1 = false /\
+   m3_evaluate MY_g MY_t W_cst3 MY_f1 = Ok TT /\ m3_evaluate MY_g MY_t' W_cst3 MY_f1 = Ok TT).
+Proof. exact verdict_stable_mexpr_example. Qed.
+Print Assumptions C06_verdict_stable_mexpr_nonvacuous.
 
 (* non-vacuity: every premise of C06_verdict_stable_preds_partial holds with a definite verdict on an open tree
    - consecutive with an open leaf between the arguments (`a<b>c`), nth with an open leaf that can still
@@ -536,3 +583,53 @@ Example C06_verdict_stable_preds_nonvacuous :
    m3_evaluate NY_g NY_t W_cst3 NY_f3 = Ok TT /\ m3_evaluate NY_g NY_t' W_cst3 NY_f3 = Ok TT).
 Proof. exact verdict_stable_preds_example. Qed.
 Print Assumptions C06_verdict_stable_preds_nonvacuous.
+
+Example C06_preds_examples_not_K_mexpr :
+  K_mexpr_open atom3 CX_t CX_f1 = false /\ K_mexpr_open atom3 CX_t CX_f2 = false /\
+  K_mexpr_open atom3 NX_t NX_f1 = false /\ K_mexpr_open atom3 NX_t NX_f5 = false /\
+  K_mexpr_open atom3 NY_t NY_f1 = false /\ K_mexpr_open atom3 NY_t NY_f2 = false /\ K_mexpr_open atom3 NY_t NY_f3 = false.
+Proof. exact preds_examples_not_K_mexpr. Qed.
+Print Assumptions C06_preds_examples_not_K_mexpr.
+
+(* ==================================================================== *)
+(* SECOND PROOF EXTENSION, part 2 (Logic/Eval3Total2.v): the returns-premise is discharged for
+   well-scoped formulas of the extended fragment without match expressions.  wsbx true u dom f:
+   Eval3Total.wsb plus consecutive(a1, a2) with node arguments in scope; nth(k, a1, a2) with k a decimal
+   literal, node arguments in scope and a1 of nonterminal type (is_nth asserts it); count(x, needle, num)
+   with x a variable in scope, needle a nonterminal, num an integer literal.                      *)
+(* ==================================================================== *)
+Theorem C06_evaluate_closed_returns_preds : forall g u cst f,
+  is_openT u = false -> lbl u = vtype cst -> wsbx atom3 true u [cst] f = true ->
+  existsb (var_eqb cst) (fvars atom3 afree3 f) = true ->
+  exists r, m3_evaluate g u cst f = Ok r.
+Proof. exact m3_evaluate_returns2. Qed.
+Print Assumptions C06_evaluate_closed_returns_preds.
+
+(* the shape of the full statement: no premise about the evaluation on t'.  `lbl t' = vtype cst`: the
+   constant has the type of the root (Constant("start", "<start>")). *)
+Theorem C06_verdict_stable_preds_wellscoped_partial : forall g t t' cst f v,
+  compl g t t' -> is_openT t' = false -> uniq_ids t' -> reach_closedb g = true ->
+  lbl t' = vtype cst -> wsbx atom3 true t' [cst] f = true -> existsb (var_eqb cst) (fvars atom3 afree3 f) = true ->
+  forallb is_nt (qtypes atom3 f) = true ->
+  K_selfrec_open atom3 g t f = false -> K_cons_rel_open atom3 t f = false -> K_nth_before atom3 g t f = false ->
+  m3_evaluate g t cst f = Ok v -> v <> UU -> m3_evaluate g t' cst f = Ok v.
+Proof. exact verdict_stable_preds_ws. Qed.
+Print Assumptions C06_verdict_stable_preds_wellscoped_partial.
+
+Theorem C06_wsb_wsbx : forall src u f dom, wsb atom3 u dom f = true -> wsbx atom3 src u dom f = true.
+Proof. exact wsb_wsbx. Qed.
+Print Assumptions C06_wsb_wsbx.
+
+Theorem C06_wsbx_qfragP : forall u f dom, wsbx atom3 true u dom f = true -> qfragP f = true.
+Proof. exact wsbx_qfragP. Qed.
+Print Assumptions C06_wsbx_qfragP.
+
+Example C06_preds_wellscoped_nonvacuous :
+  (lbl CX_t' = vtype W_cst3 /\ wsbx atom3 true CX_t' [W_cst3] CX_f1 = true /\ wsbx atom3 true CX_t' [W_cst3] CX_f2 = true /\
+   existsb (var_eqb W_cst3) (fvars atom3 afree3 CX_f1) = true) /\
+  (lbl NX_t' = vtype W_cst3 /\ wsbx atom3 true NX_t' [W_cst3] NX_f1 = true /\ wsbx atom3 true NX_t' [W_cst3] NX_f5 = true /\
+   existsb (var_eqb W_cst3) (fvars atom3 afree3 NX_f1) = true /\ existsb (var_eqb W_cst3) (fvars atom3 afree3 NX_f5) = true) /\
+  (lbl NY_t' = vtype W_cst3 /\ wsbx atom3 true NY_t' [W_cst3] NY_f1 = true /\ wsbx atom3 true NY_t' [W_cst3] NY_f2 = true /\
+   wsbx atom3 true NY_t' [W_cst3] NY_f3 = true).
+Proof. exact verdict_stable_preds_ws_example. Qed.
+Print Assumptions C06_preds_wellscoped_nonvacuous.
